@@ -163,6 +163,30 @@ def _task(t):
                     st["sat_direct" if sat_d else "unsat_direct"] += 1
             else:
                 st["no_ign_system"] += 1
+            # (3) history: the same assertion on the same operand OBJECTS first ran inside an untaken
+            #     branch; afterwards it must accept / enforce exactly what a first use does
+            if "V" not in kinds:
+                h = e2.build(prog, vec, "reuse", n, p)
+                if (h.status == "ok") != accepted:
+                    report("history-changes-acceptance", "after-untaken-branch", vec,
+                           "after the same call in an untaken branch the checked call %s, a first use %s"
+                           % ("returns" if h.status == "ok" else "raises " + str(h.exc), "returns" if accepted else "raises"))
+                hi = e2.build(prog, vec, "reuse-ign", n, p)
+                if hi.status == "ok":
+                    pins = _pins(hi, prog, vec, p)
+                    pins[len([k for k in kinds if k in ("S", "B", "Z", "P", "F")]) + 1] = 0     # the untaken condition
+                    try:
+                        sols, undec, s_ = W.exact(hi.cons, hi.nvars, pins, p, relevant=set(pins), honest=hi.assignment)
+                        st["nodes"] += s_["nodes"]
+                        if undec:
+                            st["undecided"] += 1
+                        elif bool(sols) != accepted:
+                            report("circuit-accepts-what-check-rejects" if sols else "circuit-rejects-what-check-accepts",
+                                   "after-untaken-branch", vec, "after the same call in an untaken branch the constraints emitted "
+                                   "with error checking off are %s but a first checked call %s"
+                                   % ("satisfiable" if sols else "unsatisfiable", "returns" if accepted else "raises"))
+                    except W.Capped:
+                        st["capped"] += 1
             facts.append((vec, accepted, rel, sat_d))
             if rel is False and accepted:
                 report("check-accepts-false-relation", "python", vec, "the checked call returns although the relation is false")
